@@ -280,7 +280,7 @@ type hC08i struct {
 	V int8
 	H interface{} `bexpr:"-" alt:"-"`
 	u interface{}
-	M map[string]interface{} `bexpr:"-" alt:"-"`
+	M interface{} `bexpr:"-" alt:"-"` // the struct stays comparable: only the content of the hidden fields is not
 }
 
 func hiddenContentC08(c int) interface{} {
@@ -302,7 +302,7 @@ func H_C08_filter_hidden_kinds() {
 	v1, v2 := vInt8(), vInt8()
 	mk := func() []hC08i {
 		c := vChoose(5) // one kind of hidden content per datum
-		return []hC08i{{V: v1, H: hiddenContentC08(c), u: hiddenContentC08(c)}, {V: v2, H: hiddenContentC08(c), M: map[string]interface{}{"k": hiddenContentC08(c)}}}
+		return []hC08i{{V: v1, H: hiddenContentC08(c), u: hiddenContentC08(c)}, {V: v2, H: hiddenContentC08(c), M: map[string]interface{}{"k": hiddenContentC08(c)}}, {V: v1, H: hiddenContentC08(c)}}
 	}
 	l1, l2 := mk(), mk()
 	expr := []string{`V == 1`, `V != 1`, `H == 1`, `M.k == 1`}[vChoose(4)]
